@@ -898,6 +898,11 @@ func (r *runningStep) executeSubWorkflows(input executeInput) ([]any, map[int]st
 				slotAcquired = true
 			case <-r.ctx.Done():
 				r.logger.Debugf("Aborting item %d execution.", i)
+				// The item has no result. Without an error entry a loop whose other items succeed would report
+				// success with an empty entry for this item.
+				r.lock.Lock()
+				itemErrors[i] = "the item was not run because the step was closed while the item was waiting for a free slot"
+				r.lock.Unlock()
 				return
 			}
 
